@@ -18,10 +18,22 @@ def classify(res, scs, reps, mons):
         late = sum(1 for s in sc['subs'] if s['start_at'] > 0)
         res.count('late subscriptions', late)
 
+def dup(ctx, res):
+    """non-unique / empty UUIDs: every successfully published message is replayed, not one per UUID"""
+    binary = C.build_harness()
+    r, _ = C.run_harness(binary, ['gochan-d9', '-seed', str(ctx['seed'])], ctx['pid'], 'dup.json', timeout=120)
+    for d in r.get('dup') or []:
+        res.evaluations += 1; res.count('non-unique UUID scenario')
+        if sorted(d['early']) != sorted(d['published']):
+            res.violations.append(dict(signature='C11/non-unique-uuid-live-delivery', what='messages sharing a UUID: the subscriber that existed received %s of published %s' % (d['early'], d['published']), case=d))
+        if d['persistent'] and sorted(d['late']) != sorted(d['published']):
+            res.violations.append(dict(signature='C11/non-unique-uuid-replay', what='persistent mode, messages sharing a UUID: a later subscription was replayed %s of published %s' % (d['late'], d['published']), case=d))
+
 def run(ctx, seed_offset=0, ncases=None):
     res = C.Result()
     scs, reps, mons = G.run_family(ctx, res, seed_offset=seed_offset, ncases=ncases, persistent_only=True)
     classify(res, scs, reps, mons)
+    dup(ctx, res)
     G.samples(res, scs, mons)
     res.rule = G.RULE + ' C11 runs the persistent configurations only and over-weights subscriptions that start while publishers are active.'
     return res
